@@ -537,6 +537,7 @@ class Rewriter:
                 conds = []
                 wild = False
                 bind = None
+                somebind = None
                 for p in pats:
                     k = pat_kind(p)
                     if k == 'str':
@@ -551,11 +552,16 @@ class Rewriter:
                     elif k == 'bind':
                         wild = True
                         bind = p
+                    elif k == 'somebind':
+                        conds.append('%s.is_some()' % tmp)
+                        somebind = re.match(r'^Some\s*\(\s*([a-z_][a-z0-9_]*)\s*\)$', p.strip()).group(1)
                 b = body.strip()
                 if not b.startswith('{'):
                     b = '{ %s }' % b
                 if bind:
                     b = '{ let %s = %s; %s }' % (bind, tmp, b)
+                if somebind:
+                    b = '{ let %s = %s.unwrap(); %s }' % (somebind, tmp, b)
                 cond = ' || '.join(conds) if conds else None
                 if grd:
                     cond = ('(%s) && (%s)' % (cond, grd)) if cond else grd
@@ -564,6 +570,9 @@ class Rewriter:
                 else:
                     parts.append((cond, b))
             chain = []
+            if parts and all(c is not None for c, _ in parts) and not arms[-1][1]:
+                # no wildcard arm: the match is exhaustive, so its last (guard-free) arm covers what is left
+                parts[-1] = (None, parts[-1][1])
             for idx, (cond, b) in enumerate(parts):
                 if cond is None:
                     chain.append(('else ' if idx else '') + b)
@@ -889,6 +898,15 @@ class Rewriter:
                         pieces.append(('pad2', arg))
                         k = e + 1
                         continue
+                    elif re.match(r'^:0[3-9]$', inner) or re.match(r'^:\.[0-9]+$', inner):
+                        # zero padding to another width / fixed decimals: the rendering is left uninterpreted
+                        if ai >= len(args):
+                            ok = False; break
+                        arg = args[ai]; ai += 1
+                        pieces.append(('lit', cur)); cur = ''
+                        pieces.append(('opaque', (inner, arg)))
+                        k = e + 1
+                        continue
                     else:
                         ok = False; break
                     pieces.append(('lit', cur)); cur = ''
@@ -906,6 +924,8 @@ class Rewriter:
                         parts.append('"%s"' % v)
                 elif kind == 'pad2':
                     parts.append('&(%s).vx_pad2()' % v)
+                elif kind == 'opaque':
+                    parts.append('&vx::fmt_opaque("%s", &(%s))' % v)
                 else:
                     parts.append('&(%s).vx_string()' % v)
             if not parts:
@@ -1040,6 +1060,10 @@ class Rewriter:
             code = self.is_some_and_nested(code)
             code = self.pred_closures(code)
             code = self.and_then_closures(code)
+        k_sf = len(re.findall(r'(?<![A-Za-z0-9_:])String::from\(', code))
+        if k_sf:
+            code = re.sub(r'(?<![A-Za-z0-9_:])String::from\(', 'vx::string_from(', code)
+            self.note('String::from(&str)->vx::string_from', k_sf)
         code = self.method_to_fn(code, METHOD_RULES_PRE)
         if not opts.get('no_str_slice'):
             code = self.str_slices(code, skip_names=tuple(opts.get('noslice', ())))
@@ -1081,6 +1105,8 @@ def pat_kind(p: str):
         return 'wild'
     if p == 'None':
         return 'none'
+    if re.match(r'^Some\s*\(\s*[a-z_][a-z0-9_]*\s*\)$', p):
+        return 'somebind'
     if re.match(r'^[a-z_][a-z0-9_]*$', p):
         return 'bind'
     return None
@@ -1310,6 +1336,183 @@ def slice_body(body: str, var: str, field: str):
         else:
             kept.append(st)
     return body[:ob + 1] + ''.join(kept) + body[cb:], len(dropped)
+
+
+def _cond_span(m, start):
+    """masked text, index just after `if ` -> index of the body brace at depth 0"""
+    j, depth = start, 0
+    while j < len(m):
+        ch = m[j]
+        if ch in '([':
+            depth += 1
+        elif ch in ')]':
+            depth -= 1
+        elif ch == '{' and depth == 0:
+            return j
+        j += 1
+    return -1
+
+
+def abs_format_args(body: str):
+    """abstraction used for the tag-prefix obligations: every argument of a `format!` call that is not a plain place
+    expression (`x`, `self.a.b`) is replaced by the unconstrained `vx::any_arg()`.  The literal part of the format
+    string is kept, so a postcondition about the literal prefix proved on the abstraction holds for the real body; what the
+    replaced arguments compute (and whether they can panic) is NOT covered."""
+    n = 0
+    pos = 0
+    guard = 0
+    while True:
+        guard += 1
+        if guard > 300:
+            raise ExtractError('abs_format_args loop')
+        m = mask(body)
+        mm = re.compile(r'(?<![A-Za-z0-9_])format!\s*\(').search(m, pos)
+        if not mm:
+            break
+        op = mm.end() - 1
+        cp = match_close(m, op)
+        inner_m = m[op + 1:cp]
+        inner = body[op + 1:cp]
+        parts, depth, last = [], 0, 0
+        for k, ch in enumerate(inner_m):
+            if ch in '([{':
+                depth += 1
+            elif ch in ')]}':
+                depth -= 1
+            elif ch == ',' and depth == 0:
+                parts.append(inner[last:k]); last = k + 1
+        parts.append(inner[last:])
+        new_parts = [parts[0]]
+        for a in parts[1:]:
+            t = a.strip()
+            if not t:
+                continue
+            if re.match(r'^&?\s*(self\s*\.\s*)?[a-z_][a-z0-9_]*(\s*\.\s*[a-z_][a-z0-9_]*)*$', t) or re.match(r'^[a-z_][a-z0-9_]*\s*=', t):
+                new_parts.append(a)
+            else:
+                new_parts.append(' vx::any_arg()'); n += 1
+        rep = ','.join(new_parts)
+        body = body[:op + 1] + rep + body[cp:]
+        pos = op + 1 + len(rep)
+    # a top-level `let x = EXPR;` (escape-free) whose variable is read only inside format! argument lists is abstracted too
+    ob = body.index('{')
+    cb = body.rindex('}')
+    stmts = split_stmts(body[ob + 1:cb])
+    m_all = mask(body)
+    fmt_spans = []
+    for mm in re.finditer(r'(?<![A-Za-z0-9_])format!\s*\(', m_all):
+        fmt_spans.append((mm.end(), match_close(m_all, mm.end() - 1)))
+    out = []
+    for st in stmts:
+        ms = mask(st)
+        lm = re.match(r'\s*let\s+(?:mut\s+)?([a-z_][a-z0-9_]*)\s*(?::[^=]*)?=', ms)
+        if lm and ms.rstrip().endswith(';') and 'format!' not in ms and not re.search(r'(?<![A-Za-z0-9_])return(?![A-Za-z0-9_])|\?|panic!', ms):
+            v = lm.group(1)
+            occ = [x.start() for x in re.finditer(r'(?<![A-Za-z0-9_.])' + re.escape(v) + r'(?![A-Za-z0-9_])', m_all)]
+            s0 = body.index(st)
+            outside = [o for o in occ if not (s0 <= o < s0 + len(st))]
+            if outside and all(any(a <= o < b for a, b in fmt_spans) for o in outside):
+                lead = st[:len(st) - len(st.lstrip())]
+                out.append('%slet %s = vx::any_arg();' % (lead, v)); n += 1
+                continue
+        out.append(st)
+    body = body[:ob + 1] + ''.join(out) + body[cb:]
+    return body, n
+
+
+def havoc_guards(body: str):
+    """abstraction used for the option heuristics (C14): every `if COND {` / `while COND {` whose condition is not a
+    `let` pattern gets the condition replaced by the unconstrained `vx::havoc()`, then top-level statements that became
+    dead are dropped: a `let` whose variable is no longer read by a kept statement, and an escape-free loop / assignment
+    that only writes such variables.  The abstraction only ADDS behaviours (every guard may go both ways), so a
+    postcondition proved on it holds for the real body; panics inside dropped statements are NOT covered."""
+    n_h = 0
+    guard = 0
+    pos = 0
+    while True:
+        guard += 1
+        if guard > 500:
+            raise ExtractError('havoc_guards loop')
+        m = mask(body)
+        mm = None
+        for x in re.finditer(r'(?<![A-Za-z0-9_])(if|while)\s', m):
+            if x.start() < pos:
+                continue
+            mm = x
+            break
+        if not mm:
+            break
+        j = _cond_span(m, mm.end())
+        if j < 0:
+            pos = mm.end(); continue
+        cond = m[mm.end():j].strip()
+        if cond.startswith('let ') or cond.startswith('vx::havoc()'):
+            pos = mm.end(); continue
+        body = body[:mm.end()] + 'vx::havoc() ' + body[j:]
+        n_h += 1
+        pos = mm.end()
+    # dead statement elimination, at every nesting depth of if/else/plain blocks (loops are atomic), to a fixpoint
+    def collect(text, base, out):
+        pos = 0
+        for st in split_stmts(text):
+            k = text.index(st, pos)
+            pos = k + len(st)
+            lead = len(st) - len(st.lstrip())
+            out.append((base + k + lead, base + k + len(st), st[lead:]))
+            ms = mask(st)
+            head = ms.lstrip()
+            if re.match(r'(if\b|\{)', head):
+                depth, j = 0, 0
+                while j < len(ms):
+                    ch = ms[j]
+                    if ch in '([':
+                        depth += 1
+                    elif ch in ')]':
+                        depth -= 1
+                    elif ch == '{' and depth == 0:
+                        e = match_close(ms, j)
+                        collect(st[j + 1:e], base + k + j + 1, out)
+                        j = e
+                    j += 1
+        return out
+    nd = 0
+    for _round in range(60):
+        ob = body.index('{')
+        cb = body.rindex('}')
+        stmts = collect(body[ob + 1:cb], ob + 1, [])
+        mb = mask(body)
+
+        def occurrences_outside(v, s0, e0):
+            return [x.start() for x in re.finditer(r'(?<![A-Za-z0-9_.])' + re.escape(v) + r'(?![A-Za-z0-9_])', mb) if not (s0 <= x.start() < e0)]
+        victim = None
+        for (s0, e0, st) in stmts:
+            ms = mask(st)
+            if re.search(r'(?<![A-Za-z0-9_])return(?![A-Za-z0-9_])|\?|panic!|unreachable!', ms):
+                continue
+            lm = re.match(r'let\s+(?:mut\s+)?([a-z_][a-z0-9_]*)\s*(?::[^=]*)?=', ms)
+            if lm and ms.rstrip().endswith(';'):
+                if not occurrences_outside(lm.group(1), s0, e0):
+                    victim = (s0, e0); break
+                continue
+            if re.match(r'(for|while|loop)\b', ms):
+                inner_lets = set(re.findall(r'(?<![A-Za-z0-9_])let\s+(?:mut\s+)?([a-z_][a-z0-9_]*)', ms)) | set(re.findall(r'(?<![A-Za-z0-9_])for\s+\(?\s*([a-z_][a-z0-9_]*)', ms))
+                assigned = set(re.findall(r'(?<![A-Za-z0-9_.])([a-z_][a-z0-9_]*)\s*(?:=(?!=)|\+=|-=)', ms)) - inner_lets
+                if re.search(r'(?<![A-Za-z0-9_])self\s*\.\s*[a-z_0-9]+\s*(?:=(?!=)|\+=)|\.\s*(push|push_str|insert|extend|clear|remove)\s*\(', ms):
+                    continue
+                ok = True
+                for v in assigned:
+                    for o in occurrences_outside(v, s0, e0):
+                        # allowed only inside the declaring `let [mut] v = ...;`
+                        decl = [1 for (s1, e1, st1) in stmts if s1 <= o < e1 and re.match(r'let\s+(?:mut\s+)?' + re.escape(v) + r'\b', mask(st1)) and not re.match(r'(if|for|while|loop|\{)', mask(st1))]
+                        if not decl:
+                            ok = False
+                if ok:
+                    victim = (s0, e0); break
+        if not victim:
+            break
+        body = body[:victim[0]] + body[victim[1]:]
+        nd += 1
+    return body, n_h, nd
 
 
 def slice_acc(body: str, acc: str, keep_expr: str):
